@@ -6,7 +6,10 @@ import (
 	"go/token"
 	"go/types"
 	"math"
+	"os"
+	"sort"
 	"strings"
+	"sync"
 
 	"golang.org/x/tools/go/ssa"
 )
@@ -109,6 +112,8 @@ type Interp struct {
 	modelHits  int
 	lits       map[string]bool
 	litHits    int
+	fixed      map[string]uint64 // variables uniquely determined by the path condition
+	free       map[string]bool   // variables found not (yet) determined
 	userState  map[string]Value
 }
 
@@ -346,6 +351,38 @@ func (in *Interp) constVal(c *ssa.Const) Value {
 
 // ---------- decisions ----------
 
+var (
+	decideProf   map[string]int
+	decideProfMu sync.Mutex
+)
+
+func init() {
+	if os.Getenv("GOSYM_PROF") != "" {
+		decideProf = map[string]int{}
+	}
+}
+
+func dumpDecideProf() {
+	if decideProf == nil {
+		return
+	}
+	type kv struct {
+		k string
+		v int
+	}
+	var l []kv
+	for k, v := range decideProf {
+		l = append(l, kv{k, v})
+	}
+	sort.Slice(l, func(i, j int) bool { return l[i].v > l[j].v })
+	for i, e := range l {
+		if i >= 15 {
+			break
+		}
+		fmt.Fprintf(os.Stderr, "PROF %8d %s\n", e.v, e.k)
+	}
+}
+
 // termKey renders small terms canonically (used to recognise literals already decided on this path).
 func termKey(t *Term, depth int) string {
 	if t.leaf() {
@@ -413,10 +450,52 @@ func (in *Interp) knownLiteral(c *Term) (val bool, ok bool) {
 	return v != neg, true
 }
 
+// varsOf collects the distinct variables of t; ok=false if there are more than limit.
+func varsOf(t *Term, limit int) ([]*Term, bool) {
+	var out []*Term
+	seen := map[*Term]bool{}
+	ok := true
+	var walk func(x *Term)
+	walk = func(x *Term) {
+		if !ok || x.isC || seen[x] {
+			return
+		}
+		seen[x] = true
+		if x.op == "var" {
+			for _, o := range out {
+				if o.name == x.name {
+					return
+				}
+			}
+			if len(out) >= limit {
+				ok = false
+				return
+			}
+			out = append(out, x)
+			return
+		}
+		for _, a := range x.args {
+			walk(a)
+		}
+	}
+	walk(t)
+	return out, ok
+}
+
 func (in *Interp) assume(c *Term) {
 	in.sol.Assert(c)
 	in.pc = append(in.pc, c)
 	in.noteLiteral(c)
+	if len(in.free) > 0 {
+		// a new constraint may pin down variables previously found undetermined
+		if vs, few := varsOf(c, 6); few {
+			for _, x := range vs {
+				delete(in.free, x.name)
+			}
+		} else {
+			in.free = nil
+		}
+	}
 	if in.model != nil && !in.evalModel(c) {
 		in.model = nil
 	}
@@ -445,6 +524,66 @@ func (in *Interp) feasible(c *Term) string {
 			return "sat"
 		}
 		return "unsat"
+	}
+	// variables already known to be uniquely determined by the path condition
+	vs, few := varsOf(c, 3)
+	if few && len(in.fixed) > 0 {
+		all := true
+		for _, x := range vs {
+			if _, ok := in.fixed[x.name]; !ok {
+				all = false
+				break
+			}
+		}
+		if all {
+			in.litHits++
+			if evalTerm(c, in.fixed, map[*Term]uint64{}) != 0 {
+				return "sat"
+			}
+			return "unsat"
+		}
+	}
+	// single-variable condition contradicting the cached model: first ask whether the variable is
+	// uniquely determined by the path condition; if so this and all later conditions on it are decided.
+	if few && in.model != nil {
+		for _, x := range vs {
+			if _, ok := in.fixed[x.name]; ok || in.free[x.name] {
+				continue
+			}
+			v := in.model[x.name] & maskB(x.w)
+			if in.sol.CheckWith(Not(eqConst(x, v))) == "unsat" {
+				if in.fixed == nil {
+					in.fixed = map[string]uint64{}
+				}
+				in.fixed[x.name] = v
+			} else {
+				if in.free == nil {
+					in.free = map[string]bool{}
+				}
+				in.free[x.name] = true
+			}
+		}
+		all := true
+		for _, x := range vs {
+			if _, ok := in.fixed[x.name]; !ok {
+				all = false
+			}
+		}
+		if all {
+			if evalTerm(c, in.fixed, map[*Term]uint64{}) != 0 {
+				return "sat"
+			}
+			return "unsat"
+		}
+	}
+	if decideProf != nil {
+		w := "?"
+		if in.curFrame != nil {
+			w = in.curFrame.fn.String()
+		}
+		decideProfMu.Lock()
+		decideProf[w]++
+		decideProfMu.Unlock()
 	}
 	in.sol.Push()
 	in.sol.Assert(c)
@@ -476,6 +615,7 @@ func (in *Interp) decide(c *Term) bool {
 		if dec.Val == 2 || dec.Val == 3 { // marks two-sided decisions (val 2 = false, 3 = true)
 			in.twoSided++
 		}
+		in.prefixDone()
 		return dec.Val&1 != 0
 	}
 	if d >= in.lem.MaxDecisions {
@@ -522,6 +662,53 @@ func (in *Interp) decide(c *Term) bool {
 	return ch
 }
 
+// prefixDone runs when the last forced decision of the prefix has been replayed: the path condition must
+// be satisfiable (it was when the alternative was recorded). This guards against any nondeterminism in
+// the engine itself, and primes the model cache.
+func (in *Interp) prefixDone() {
+	if len(in.taken) != len(in.prefix) {
+		return
+	}
+	r := in.sol.Check()
+	switch r {
+	case "sat":
+		in.model = in.sol.Values(in.sol.DeclaredNames())
+	case "unsat":
+		in.abort("replayed decision prefix is infeasible (engine nondeterminism)")
+	default:
+		in.lem.noteUnknown()
+	}
+}
+
+// hint records (or, when replaying, retrieves) an auxiliary value that steers the engine's own search
+// order, so that control flow never depends on the state of the model cache.
+func (in *Interp) hint(compute func() int64) int64 {
+	d := len(in.taken)
+	if d < len(in.prefix) {
+		dec := in.prefix[d]
+		if dec.Kind != 'v' {
+			in.abort("replay divergence: expected hint at depth %d, have %c", d, dec.Kind)
+		}
+		in.taken = append(in.taken, dec)
+		return dec.Val
+	}
+	v := compute()
+	in.taken = append(in.taken, Decision{'v', v})
+	return v
+}
+
+// ensureModel makes sure a model of the current path condition is cached.
+func (in *Interp) ensureModel() bool {
+	if in.model != nil {
+		return true
+	}
+	if in.sol.Check() == "sat" {
+		in.model = in.sol.Values(in.sol.DeclaredNames())
+		return true
+	}
+	return false
+}
+
 // choose forks n ways (structural nondeterminism); returns the chosen index.
 func (in *Interp) choose(n int) int {
 	if n <= 0 {
@@ -538,6 +725,7 @@ func (in *Interp) choose(n int) int {
 		}
 		in.taken = append(in.taken, dec)
 		in.twoSided++
+		in.prefixDone()
 		return int(dec.Val)
 	}
 	if d >= in.lem.MaxDecisions {
